@@ -208,6 +208,8 @@ type LoopRec struct {
 	HeadEnv   map[types.Object]Term
 	HeadEpoch int
 	Quiet     bool // no iteration writes memory: the loop body sees the memory state of the loop's entry
+	// Exhaust: `for { if G { return X }; … }` read as `for !G { … }; return X` — what the function returns when the loop runs out
+	Exhaust *Path
 }
 
 type Path struct {
@@ -348,9 +350,31 @@ func (x *SX) guardedForever(rec *LoopRec) {
 	if len(rec.Iter) < 2 {
 		return
 	}
+	pre := x.preStep(rec)
+	defer func() {
+		// only when the guard became the loop condition do the pre-steps read as post steps; otherwise the loop stays as written
+		if rec.CondT != nil {
+			for o, d := range pre.steps {
+				if rec.PostStep == nil {
+					rec.PostStep = map[types.Object]int64{}
+				}
+				rec.PostStep[o] = d
+			}
+		} else if len(pre.steps) > 0 {
+			rec.Iter, rec.Init = pre.iter, pre.init
+		}
+	}()
 	var G Term
 	var leave *Path
 	leaveTruth := false
+	// a guard that returns (nothing done, nothing assigned) ends the loop like a break when no round breaks: nothing follows the
+	// loop then, so "the loop ran out and the function returns X" is the same thing
+	breaks := false
+	for _, p := range rec.Iter {
+		if strings.HasPrefix(p.End, "break") {
+			breaks = true
+		}
+	}
 	for _, p := range rec.Iter {
 		if p.Why != "" || len(p.Steps) == 0 || p.Steps[0].Kind != "cond" {
 			return
@@ -361,7 +385,7 @@ func (x *SX) guardedForever(rec *LoopRec) {
 		} else if !sameTerm(G, cd.T) {
 			return
 		}
-		if len(p.Steps) == 1 && p.End == "break" {
+		if len(p.Steps) == 1 && (p.End == "break" || (p.End == "return" && !breaks)) {
 			unchanged := true
 			for o, t := range p.Env {
 				if h, ok := rec.HeadEnv[o]; ok && !sameTerm(h, t) {
@@ -397,7 +421,90 @@ func (x *SX) guardedForever(rec *LoopRec) {
 		rec.CondT = G
 	}
 	rec.Iter = rest
+	if leave.End == "return" {
+		rec.Exhaust = leave
+	}
 	x.synthPost(rec)
+}
+
+// preStep: `for { i--; if i < 0 { break }; … i … }` — every iteration begins by moving a counter by the same constant and mentions it
+// only after that. Seen from the counter's value after the move, the loop starts one step further and moves the counter at the END of
+// each round: the iterations are rewritten to that view (the moved counter becomes the loop variable, its initial value is advanced once);
+// guardedForever then finds the guard and the step is recorded as the synthesised post statement. The original iterations are kept for
+// the case that no guard is found.
+type preStepRes struct {
+	steps map[types.Object]int64
+	iter  []*Path
+	init  map[types.Object]Term
+}
+
+func (x *SX) preStep(rec *LoopRec) preStepRes {
+	res := preStepRes{steps: map[types.Object]int64{}, iter: rec.Iter, init: rec.Init}
+	for o, init := range rec.Init {
+		if !isIntType(o.Type()) {
+			continue
+		}
+		var d int64
+		ok := true
+		for _, p := range rec.Iter {
+			b, isB := p.Env[o].(TBin)
+			if !isB || (b.Op != token.ADD && b.Op != token.SUB) {
+				ok = false
+				break
+			}
+			lv, isL := b.X.(TLoop)
+			k, isK := constInt(b.Y)
+			if !isL || lv.Obj != o || lv.ID != rec.ID || !isK || k == 0 {
+				ok = false
+				break
+			}
+			if b.Op == token.SUB {
+				k = -k
+			}
+			if d != 0 && d != k {
+				ok = false
+				break
+			}
+			d = k
+		}
+		if !ok || d == 0 {
+			continue
+		}
+		moved := func(t Term) bool {
+			b, isB := t.(TBin)
+			if !isB || (b.Op != token.ADD && b.Op != token.SUB) {
+				return false
+			}
+			lv, isL := b.X.(TLoop)
+			k, isK := constInt(b.Y)
+			if b.Op == token.SUB {
+				k = -k
+			}
+			return isL && lv.Obj == o && lv.ID == rec.ID && isK && k == d
+		}
+		bare := false
+		f := func(t Term) (Term, bool) {
+			if moved(t) {
+				return TLoop{o, rec.ID}, true
+			}
+			if lv, isL := t.(TLoop); isL && lv.Obj == o && lv.ID == rec.ID {
+				bare = true
+			}
+			return nil, false
+		}
+		var iters []*Path
+		for _, p := range rec.Iter {
+			iters = append(iters, mapPath(p, f))
+		}
+		if bare {
+			continue // the counter is also read before it is moved
+		}
+		newInit := copyEnv(rec.Init)
+		newInit[o] = simplify(TBin{Op: token.ADD, X: init, Y: TConst{constant.MakeInt64(d)}})
+		rec.Iter, rec.Init = iters, newInit
+		res.steps[o] = d
+	}
+	return res
 }
 
 // synthPost: a loop without a post statement whose continuing iterations all advance a counter by the same constant (`for i >= 0 { …;
@@ -487,6 +594,9 @@ func (x *SX) RunStmts(stmts []ast.Stmt, env map[types.Object]Term) []*Path {
 	for k, v := range env {
 		st.env[k] = v
 	}
+	if f := freshFloor(env); f > x.fresh {
+		x.fresh = f // allocations made here are distinct from those the environment already names
+	}
 	for _, s := range stmts {
 		x.noteAddrTaken(s)
 	}
@@ -566,6 +676,50 @@ func (x *SX) localStruct(base Term) (structObj, bool) {
 	return so, true
 }
 
+// havocStruct: every field of the scalar-replaced struct base denotes gets an unknown value.
+func (x *SX) havocStruct(base Term, st *sxState) {
+	so, ok := x.localStruct(base)
+	if !ok {
+		return
+	}
+	b := base
+	for {
+		switch y := b.(type) {
+		case TAddr:
+			b = y.X
+			continue
+		case TDeref:
+			b = y.X
+			continue
+		}
+		break
+	}
+	var typ types.Type
+	switch y := b.(type) {
+	case TLit:
+		typ = y.Type
+	case TVar:
+		typ = y.Obj.Type()
+	case TBuiltin:
+		typ = y.Type
+	}
+	if typ == nil {
+		return
+	}
+	if p, isPtr := typ.(*types.Pointer); isPtr {
+		typ = p.Elem()
+	}
+	stt, ok := typ.Underlying().(*types.Struct)
+	if !ok {
+		return
+	}
+	x.loopID++
+	for i := 0; i < stt.NumFields(); i++ {
+		v := x.fieldVar(so, stt.Field(i))
+		st.env[v] = TLoop{v, x.loopID}
+	}
+}
+
 // fieldVar: the pseudo local standing for field f of the struct so; its initial value is remembered for loop heads.
 func (x *SX) fieldVar(so structObj, f *types.Var) *types.Var {
 	if x.fieldVars == nil {
@@ -576,10 +730,47 @@ func (x *SX) fieldVar(so structObj, f *types.Var) *types.Var {
 	if v, ok := x.fieldVars[k]; ok {
 		return v
 	}
-	v := types.NewVar(f.Pos(), x.c.Types, "·"+f.Name()+"@"+so.key, f.Type())
+	// one pseudo local per (struct identity, field) for the whole package: a closure body executed by a second executor with the
+	// environment of the first (a spawned literal, a callback) names the same variable
+	shared := fieldVarCache[x.c.Types]
+	if shared == nil {
+		shared = map[string]*types.Var{}
+		fieldVarCache[x.c.Types] = shared
+	}
+	gk := fmt.Sprintf("%s@%d", k, f.Pos())
+	v, ok := shared[gk]
+	if !ok {
+		v = types.NewVar(f.Pos(), x.c.Types, "·"+f.Name()+"@"+so.key, f.Type())
+		shared[gk] = v
+	}
 	x.fieldVars[k] = v
 	x.fieldInits[v] = x.fieldInit(so, f)
 	return v
+}
+
+var fieldVarCache = map[*types.Package]map[string]*types.Var{}
+
+// freshFloor: the highest allocation number mentioned in the terms of an environment handed over from another executor.
+func freshFloor(env map[types.Object]Term) int {
+	max := 0
+	for _, t := range env {
+		if t == nil {
+			continue
+		}
+		collectSubterms(t, func(u Term) {
+			switch x := u.(type) {
+			case TLit:
+				if x.Fresh > max {
+					max = x.Fresh
+				}
+			case TBuiltin:
+				if -x.Epoch > max {
+					max = -x.Epoch
+				}
+			}
+		})
+	}
+	return max
 }
 
 // fieldInit: the value the literal gives field f (explicit element or the zero value).
@@ -662,6 +853,14 @@ func (x *SX) assign(lhs ast.Expr, val Term, st *sxState, node ast.Node) {
 		o := x.c.obj(id)
 		if o != nil && isLocalVar(o) {
 			if x.addrTaken[o] {
+				if _, scalar := x.localStruct(val); scalar {
+					if _, isLit := val.(TLit); isLit {
+						// a struct made on this path whose address is handed to a helper: the struct is its literal, its fields are
+						// pseudo-locals, `&x` is the address of that literal (no memory cell of its own)
+						st.env[o] = val
+						return
+					}
+				}
 				st.bump()
 				st.steps = append(st.steps, Step{Kind: "store", LHS: TVar{o}, RHS: val, Node: node, Heap: st.heap})
 				st.env[o] = val // best knowledge; reads go through readVar
@@ -806,6 +1005,19 @@ func (x *SX) stmt(s ast.Stmt, st *sxState) []outcome {
 					if fd := c.DeclOf(f); fd != nil && fd.Body != nil {
 						step.Lit = &ast.FuncLit{Type: fd.Type, Body: fd.Body}
 					}
+				} else if sig != nil {
+					// a private method of a struct made on this path started directly (`go pool.step(k, x)`): its declaration with the
+					// receiver bound to that struct is the spawned body
+					if _, isI := sig.Recv().Type().Underlying().(*types.Interface); !isI {
+						if se, isSel := unparen(v.Call.Fun).(*ast.SelectorExpr); isSel {
+							recv := x.eval(se.X, st)
+							fd := c.DeclOf(f)
+							if _, scalar := x.localStruct(recv); scalar && fd != nil && fd.Body != nil && fd.Recv != nil && len(fd.Recv.List) == 1 && len(fd.Recv.List[0].Names) == 1 {
+								step.Lit = &ast.FuncLit{Type: fd.Type, Body: fd.Body}
+								step.Env[c.Info.Defs[fd.Recv.List[0].Names[0]]] = recv
+							}
+						}
+					}
 				}
 			}
 		}
@@ -836,6 +1048,12 @@ func (x *SX) stmt(s ast.Stmt, st *sxState) []outcome {
 			var next []outcome
 			var nvals [][]Term
 			for i, oc := range outs {
+				if oc.kind != "" {
+					// an earlier result expression already left (a panic inside an inlined call): nothing further is evaluated
+					next = append(next, oc)
+					nvals = append(nvals, nil)
+					continue
+				}
 				for _, ev := range x.evalFork(r, oc.st) {
 					if ev.kind != "" {
 						next = append(next, ev.outcome)
@@ -1331,6 +1549,49 @@ func (x *SX) assignedIn(n ast.Node) []types.Object {
 	return out
 }
 
+// structsAssignedIn: local variables a field of which is assigned in n (`guard.present = true`, `w.count++`).
+func (x *SX) structsAssignedIn(n ast.Node) []types.Object {
+	set := map[types.Object]bool{}
+	root := func(e ast.Expr) {
+		for {
+			switch v := unparen(e).(type) {
+			case *ast.SelectorExpr:
+				if o := x.c.obj(v.X); o != nil && isLocalVar(o) {
+					set[o] = true
+					return
+				}
+				e = v.X
+				continue
+			case *ast.StarExpr:
+				e = v.X
+				continue
+			}
+			return
+		}
+	}
+	ast.Inspect(n, func(m ast.Node) bool {
+		switch v := m.(type) {
+		case *ast.AssignStmt:
+			for _, l := range v.Lhs {
+				if _, isSel := unparen(l).(*ast.SelectorExpr); isSel {
+					root(l)
+				}
+			}
+		case *ast.IncDecStmt:
+			if _, isSel := unparen(v.X).(*ast.SelectorExpr); isSel {
+				root(v.X)
+			}
+		}
+		return true
+	})
+	var out []types.Object
+	for o := range set {
+		out = append(out, o)
+	}
+	sort.Slice(out, func(i, j int) bool { return out[i].Pos() < out[j].Pos() })
+	return out
+}
+
 func (x *SX) havoc(n ast.Node, st *sxState, id int, declaredInside func(types.Object) bool) {
 	for _, o := range x.assignedIn(n) {
 		if declaredInside(o) {
@@ -1510,7 +1771,11 @@ func (x *SX) forOnce(v *ast.ForStmt, oc outcome, id int, bump int, extra []types
 			after.why = p.Why
 		}
 	}
-	res = append(res, outcome{st: after})
+	if rec.Exhaust != nil {
+		res = append(res, outcome{kind: "return", vals: rec.Exhaust.Vals, node: rec.Exhaust.Node, st: after})
+	} else {
+		res = append(res, outcome{st: after})
+	}
 	return res, rec
 }
 
@@ -1519,6 +1784,10 @@ func (x *SX) rangeStmt(v *ast.RangeStmt, st *sxState) []outcome {
 	for _, ev := range x.evalFork(v.X, st) {
 		if ev.kind != "" {
 			res = append(res, ev.outcome)
+			continue
+		}
+		if lit, ok := ev.val.(TLit); ok && x.dispatchTable(lit, v) {
+			res = append(res, x.unrollRange(v, lit, ev.st)...)
 			continue
 		}
 		x.loopID++
@@ -1543,6 +1812,78 @@ func (x *SX) rangeStmt(v *ast.RangeStmt, st *sxState) []outcome {
 		res = append(res, o1...)
 	}
 	return res
+}
+
+// dispatchTable: the ranged value is a literal array/slice of at most 8 function values written out element by element (a table of
+// alternatives tried in order). Such a loop is unrolled: each round runs the body with the element bound to that literal.
+func (x *SX) dispatchTable(lit TLit, v *ast.RangeStmt) bool {
+	cl, ok := lit.Node.(*ast.CompositeLit)
+	if !ok || lit.Type == nil || len(lit.Elts) == 0 || len(lit.Elts) > 8 || len(lit.Elts) != len(cl.Elts) || x.loopLabel[v] != "" {
+		return false
+	}
+	var elem types.Type
+	switch t := lit.Type.Underlying().(type) {
+	case *types.Array:
+		elem = t.Elem()
+	case *types.Slice:
+		elem = t.Elem()
+	default:
+		return false
+	}
+	if _, isFn := elem.Underlying().(*types.Signature); !isFn {
+		return false
+	}
+	for _, el := range cl.Elts {
+		if _, kv := el.(*ast.KeyValueExpr); kv {
+			return false
+		}
+	}
+	for _, e := range []ast.Expr{v.Key, v.Value} {
+		if e != nil {
+			if _, isID := e.(*ast.Ident); !isID {
+				return false
+			}
+		}
+	}
+	return true
+}
+
+func (x *SX) unrollRange(v *ast.RangeStmt, lit TLit, st *sxState) []outcome {
+	cur := []outcome{{st: st}}
+	bind := func(e ast.Expr, t Term, st *sxState) {
+		if id, ok := e.(*ast.Ident); ok && id.Name != "_" {
+			if o := x.c.obj(id); o != nil {
+				st.env[o] = t
+			}
+		}
+	}
+	for i, el := range lit.Elts {
+		var next []outcome
+		for _, o := range cur {
+			if o.kind != "" {
+				next = append(next, o)
+				continue
+			}
+			bind(v.Key, TConst{constant.MakeInt64(int64(i))}, o.st)
+			bind(v.Value, el, o.st)
+			for _, bo := range x.block(v.Body.List, o.st) {
+				switch bo.kind {
+				case "continue":
+					bo.kind = ""
+				case "break":
+					bo.kind = "left-unrolled"
+				}
+				next = append(next, bo)
+			}
+		}
+		cur = next
+	}
+	for i := range cur {
+		if cur[i].kind == "left-unrolled" {
+			cur[i].kind = ""
+		}
+	}
+	return cur
 }
 
 func (x *SX) rangeOnce(v *ast.RangeStmt, ev evalOut, id int, bump int, extra []types.Object) ([]outcome, *LoopRec) {
@@ -1649,6 +1990,13 @@ func (x *SX) evalFork(e ast.Expr, st *sxState) []evalOut {
 			}
 		}
 		if x.addrTaken[o] {
+			if cur, bound := st.env[o]; bound && isLocalVar(o) {
+				if lit, isLit := cur.(TLit); isLit {
+					if _, scalar := x.localStruct(lit); scalar {
+						return one(lit) // a struct made on this path: it is its literal, wherever its address went (see assign)
+					}
+				}
+			}
 			return one(TDeref{X: TAddr{TVar{o}}, Epoch: st.heap})
 		}
 		if f, ok := o.(*types.Func); ok {
@@ -1743,6 +2091,13 @@ func (x *SX) evalFork(e ast.Expr, st *sxState) []evalOut {
 		if v.Op == token.AND {
 			if id, ok := unparen(v.X).(*ast.Ident); ok {
 				if o := c.obj(id); o != nil {
+					if cur, bound := st.env[o]; bound && isLocalVar(o) {
+						if lit, isLit := cur.(TLit); isLit {
+							if _, scalar := x.localStruct(lit); scalar {
+								return one(TAddr{lit})
+							}
+						}
+					}
 					return one(TAddr{TVar{o}})
 				}
 			}
@@ -2039,6 +2394,11 @@ func (x *SX) call(call *ast.CallExpr, st *sxState, nres int) []evalOut {
 					lit, _ = t.Node.(*ast.FuncLit)
 				case TFunc:
 					fun, targs = t.Fun, t.TArgs
+				case TCall:
+					// a method value bound earlier (f := recv.Method; f(args)): the call of that method on that receiver
+					if t.Name == "methodvalue" && t.Fun != nil && t.Recv != nil && t.Epoch == -1 && len(t.Args) == 0 {
+						fun, recv = t.Fun, t.Recv
+					}
 				}
 			}
 			if lit != nil && len(ao.st.stack) <= x.MaxDepth+2 {
@@ -2088,6 +2448,19 @@ func (x *SX) call(call *ast.CallExpr, st *sxState, nres int) []evalOut {
 				}
 				ao.st.steps = append(ao.st.steps, stp)
 			}
+			// a bound method of a struct made on this path handed to an opaque callee may run and assign the struct's fields: those
+			// are unknown afterwards
+			for _, a := range args {
+				if mv, ok := a.(TCall); ok && mv.Name == "methodvalue" && mv.Epoch == -1 && mv.Recv != nil {
+					x.havocStruct(mv.Recv, ao.st)
+				}
+				// the address of such a struct handed to a callee that is not followed: the callee may write its fields
+				if ad, ok := a.(TAddr); ok && !x.pureCall(fun) {
+					if lit, isLit := ad.X.(TLit); isLit {
+						x.havocStruct(lit, ao.st)
+					}
+				}
+			}
 			// a function literal handed to an opaque callee may run and assign the locals it captures: those are unknown afterwards
 			for _, a := range args {
 				if l, ok := a.(TLit); ok {
@@ -2096,6 +2469,16 @@ func (x *SX) call(call *ast.CallExpr, st *sxState, nres int) []evalOut {
 						for _, o := range x.assignedIn(fl.Body) {
 							if o.Pos() < fl.Pos() || o.Pos() >= fl.End() {
 								ao.st.env[o] = TLoop{o, x.loopID}
+							}
+						}
+						// fields of a captured struct made on this path (guard.present = true): unknown afterwards as well
+						for _, o := range x.structsAssignedIn(fl.Body) {
+							if o.Pos() < fl.Pos() || o.Pos() >= fl.End() {
+								if cur, bound := ao.st.env[o]; bound {
+									x.havocStruct(cur, ao.st)
+								} else {
+									x.havocStruct(TVar{o}, ao.st)
+								}
 							}
 						}
 					}
@@ -2264,9 +2647,26 @@ func countNodes(n ast.Node) int {
 
 // subst replaces a type parameter of an inlined generic helper by its instantiation.
 func (s *sxState) subst(t types.Type) types.Type {
-	if tp, ok := t.(*types.TypeParam); ok && s.tsub != nil {
-		if r, ok := s.tsub[tp]; ok {
+	if s.tsub == nil || t == nil {
+		return t
+	}
+	switch x := t.(type) {
+	case *types.TypeParam:
+		if r, ok := s.tsub[x]; ok {
 			return r
+		}
+	case *types.Pointer: // *W
+		if e := s.subst(x.Elem()); e != x.Elem() {
+			return types.NewPointer(e)
+		}
+	case *types.Slice: // []T
+		if e := s.subst(x.Elem()); e != x.Elem() {
+			return types.NewSlice(e)
+		}
+	case *types.Map: // map[K]V
+		k, e := s.subst(x.Key()), s.subst(x.Elem())
+		if k != x.Key() || e != x.Elem() {
+			return types.NewMap(k, e)
 		}
 	}
 	return t
@@ -2281,6 +2681,27 @@ func (x *SX) inline(ft *ast.FuncType, body *ast.BlockStmt, recvObj types.Object,
 	}
 	instArgs := x.instArgs
 	x.instArgs = nil
+	if f != nil && f.Origin() != nil && f.Origin() != f {
+		// a method of an instantiated generic type: the receiver's type parameters are the type arguments of the receiver's type
+		if osig, ok := f.Origin().Type().(*types.Signature); ok && osig.RecvTypeParams().Len() > 0 {
+			if isig, ok := f.Type().(*types.Signature); ok && isig.Recv() != nil {
+				rt := isig.Recv().Type()
+				if p, isPtr := rt.(*types.Pointer); isPtr {
+					rt = p.Elem()
+				}
+				if nt, isNamed := rt.(*types.Named); isNamed && nt.TypeArgs().Len() == osig.RecvTypeParams().Len() {
+					ns := map[*types.TypeParam]types.Type{}
+					for k, v := range st.tsub {
+						ns[k] = v
+					}
+					for i := 0; i < nt.TypeArgs().Len(); i++ {
+						ns[osig.RecvTypeParams().At(i)] = st.subst(nt.TypeArgs().At(i))
+					}
+					st.tsub = ns
+				}
+			}
+		}
+	}
 	if f != nil {
 		if sig, ok := f.Type().(*types.Signature); ok && sig.TypeParams().Len() > 0 {
 			var id *ast.Ident
